@@ -39,6 +39,9 @@
   over every non-panicking sequence of calls #GoneSecure = #GoneInsecure + [encrypted at the end]
   from a conversation that is not encrypted (`runApiEvents`: the per-call logs of `runApi`
   concatenated).
+  Continued in Props.C18Api (separate module, cf. Props.C19Api): the same from the invariant `Inv` and
+  from a fresh conversation, where C13 discharges the no-panic hypothesis
+  (`apiCall_security_events_inv`, `api_sequence_events_balance_fresh`).
 -/
 
 import Proofs.ConvLife
